@@ -324,6 +324,18 @@ Fixpoint static_len (fs:list field) : option nat :=
   match fs with [] => Some O
   | f :: r => match static_len_f f, static_len r with Some a, Some b => Some (a + b)%nat | _, _ => None end end.
 
+(* definitions in which the decoder looks at every bit it consumes: no spare octets, no spare bit-fields, no padding bits *)
+Fixpoint spare_free_f (f:field) : bool :=
+  match f with
+  | FSpare _ _ _ => false
+  | FBits l _ _ bfs => forallb (fun b => match b with BitF (Some _) _ _ => true | _ => false end) bfs
+                       && Nat.eqb (bits_total bfs) (8 * bits_len l bfs)
+  | FEnv _ _ _ _ body => forallb spare_free_f body
+  | FSeq _ _ _ item => forallb spare_free_f item
+  | _ => true
+  end.
+Definition spare_free (fs:list field) : bool := forallb spare_free_f fs.
+
 Definition dec_fuel (fs:list field) (data:list Z) : nat := S (lsize fs + length data).
 Definition enc_fuel (fs:list field) : nat := S (lsize fs).
 
